@@ -452,6 +452,7 @@ func E9InResult(c *core.Ctx, r *core.Report, ops []string) {
 
 // E9Shortcuts: the early-outs of bentleyOttmann agree with the truth table.
 func E9Shortcuts(c *core.Ctx, r *core.Report) {
+	r.Rule("E9.shortcut-group", "the disjoint-sub-path shortcut settles the sub-paths it takes out of the sweep together with the sub-paths of the same operand that enclose them, never one element at a time (a contour's fill depends on its enclosing contours)")
 	r.Rule("E9.shortcut", "bentleyOttmann early-outs: when Q is empty / P is empty / a sub-path of P (Q) touches nothing of the other operand, the operand is kept exactly for the ops with f_op(1,0) (resp. f_op(0,1)) true, and dropped otherwise")
 	p := c.MustPkg("")
 	info := p.TypesInfo
@@ -634,18 +635,59 @@ func E9Shortcuts(c *core.Ctx, r *core.Report) {
 		if which != "P" && which != "Q" {
 			return true
 		}
-		be, ok := core.Unparen(is.Cond).(*ast.BinaryExpr)
-		if !ok || be.Op != token.LAND {
-			return true
+		// flatten the conjunction: one conjunct is the negated overlap flag, the rest decide on op
+		var conj []ast.Expr
+		var flat func(e ast.Expr)
+		flat = func(e ast.Expr) {
+			if b, ok := core.Unparen(e).(*ast.BinaryExpr); ok && b.Op == token.LAND {
+				flat(b.X)
+				flat(b.Y)
+				return
+			}
+			conj = append(conj, core.Unparen(e))
 		}
-		neg, ok := core.Unparen(be.X).(*ast.UnaryExpr)
-		if !ok || neg.Op != token.NOT {
+		flat(is.Cond)
+		var opConds []ast.Expr
+		negs := 0
+		for _, e := range conj {
+			if neg, ok := e.(*ast.UnaryExpr); ok && neg.Op == token.NOT {
+				if _, isIdx := core.Unparen(neg.X).(*ast.IndexExpr); isIdx {
+					negs++
+					continue
+				}
+			}
+			opConds = append(opConds, e)
+		}
+		if negs != 1 || len(opConds) == 0 {
 			return true
 		}
 		found[which] = true
+		// grouping: the fill of a sub-path depends on the sub-paths that enclose it, so the
+		// shortcut may not settle the elements one at a time
+		if sc, ok := core.Unparen(call.Args[0]).(*ast.CallExpr); ok {
+			if sse, ok := sc.Fun.(*ast.SelectorExpr); ok {
+				gkey := "canvas.bentleyOttmann|disjoint-" + which + "|settled as a group"
+				if _, single := core.Unparen(sse.X).(*ast.IndexExpr); single {
+					r.Fail("E9.shortcut-group", gkey, c.Pos(sc.Pos()), fmt.Sprintf("each sub-path of %s that touches nothing of the other operand is settled on its own (`%s`): a hole contour settled alone becomes a filling contour, so an operand with a hole that is disjoint from the other operand comes back with the hole filled", which, types.ExprString(sc)))
+				} else {
+					r.OK("E9.shortcut-group", gkey, c.Pos(sc.Pos()), types.ExprString(sc))
+				}
+			}
+		}
 		var kept []string
 		for _, k := range opNames[1:] {
-			switch evalBool(info, be.Y, opEnv(info, opObj, k, nil)) {
+			v := tTrue
+			for _, oc := range opConds {
+				switch evalBool(info, oc, opEnv(info, opObj, k, nil)) {
+				case tFalse:
+					v = tFalse
+				case tUnknown:
+					if v != tFalse {
+						v = tUnknown
+					}
+				}
+			}
+			switch v {
 			case tTrue:
 				kept = append(kept, k)
 			case tUnknown:
